@@ -41,6 +41,13 @@ def run(ctx):
     d = ctx.scratch.sub("h")
     cpath, tpath = os.path.join(d, "cases.ndjson"), os.path.join(d, "trace.ndjson")
     vlib.write_ndjson(cpath, cases)
+    # scenarios with a scripted handler panic run in a process of their own, after the others (a library that does
+    # not contain the panic kills that process only)
+    cases = [c for c in cases if c.get("flavour") != "panicreg"] + [c for c in cases if c.get("flavour") == "panicreg"]
+    npan = sum(1 for c in cases if c.get("flavour") == "panicreg")
+    if npan and npan < len(cases):
+        vlib.write_ndjson(cpath, cases[:-npan])
+        vlib.write_ndjson(cpath + ".p", cases[-npan:])
     p = vlib.run_harness(ctx.harness, ["serial", "-cases", cpath, "-out", tpath, "-seed", str(ctx.seed), "-repo", vlib.REPO], timeout=int(os.environ.get("VERIF_SERIAL_TIMEOUT", "900")))
     died = None
     if p.returncode != 0:
@@ -51,6 +58,18 @@ def run(ctx):
         else:
             raise vlib.Infra("serial driver failed: " + p.stderr[-2000:])
     alllines = vlib.read_ndjson(tpath) if os.path.exists(tpath) else []
+    if npan and npan < len(cases):
+        p2 = vlib.run_harness(ctx.harness, ["serial", "-cases", cpath + ".p", "-out", tpath + ".p", "-seed", str(ctx.seed), "-repo", vlib.REPO, "-x", "first=%d" % (len(cases) - npan + 1)], timeout=600)
+        if p2.returncode != 0:
+            if "panic:" in p2.stderr or "fatal error" in p2.stderr:
+                died = p2.stderr[p2.stderr.find("panic:") if "panic:" in p2.stderr else p2.stderr.find("fatal error"):][:400].replace("\n", " ")
+            else:
+                raise vlib.Infra("serial driver failed: " + p2.stderr[-2000:])
+        more = vlib.read_ndjson(tpath + ".p") if os.path.exists(tpath + ".p") else []
+        off = max([l["sc"] for l in alllines] + [0])
+        for l in more:
+            l["sc"] += off
+        alllines += more
     lines = [l for l in alllines if l["ev"] != "hooklog"]
     conf = conformance(ctx, [dict(case=l["sc"], events=l.get("hooks") or []) for l in alllines if l["ev"] == "hooklog"])
     bad, st = vlib.tlc_validate(ctx.scratch, "SerialTrace", "SerialTrace.cfg", lines, timeout=1800, reset_key=lambda l: l["ev"] == "reset")
